@@ -180,3 +180,11 @@ CASES += [
     {"name": "first time of the axis read through its start", "kind": "twin", "edits": [
         (_ESO8, "            Ut0 = numpy.exp(-sgn*1j*HOmega*self.time.data[0])\n", "            Ut0 = numpy.exp(-sgn*1j*HOmega*self.time.start)\n", 1)]},
 ]
+
+CASES += [
+    {"name": "step continues from the stored value whatever frame it is in (the repaired defect)", "kind": "mutant", "rule": "C08-P", "edits": [
+        (_ESO8, "        if (self.now > 0) and self.ham.has_rwa and (not self.is_in_rwa):\n            self.convert_to_RWA(self.ham)\n", "", 1)]},
+    {"name": "step refuses a value that is not in the rotating frame", "kind": "twin", "edits": [
+        (_ESO8, "        if (self.now > 0) and self.ham.has_rwa and (not self.is_in_rwa):\n            self.convert_to_RWA(self.ham)\n",
+                "        if (self.now > 0) and self.ham.has_rwa and (not self.is_in_rwa):\n            raise Exception(\"convert back to RWA before the next step\")\n", 1)]},
+]
